@@ -3,7 +3,7 @@ import copy
 import json
 import os
 
-from .. import annot, core
+from .. import annot, core, translate_tables
 from . import c12_env as E
 
 PID = 'C18'
@@ -195,6 +195,7 @@ def run(chk):
     tier = chk.tier
     rng = chk.rng
     big = tier != 'quick'
+    translate_tables.translate(chk)     # the concrete theorems are stated over the tables regenerated from /repo
     chk.lean_build(['PeptVerif.Props.C18', 'PeptVerif.Props.C18Concrete'], DRV)
     quirks = E.probe_quirks()
     chk.notes.append(f'composition-path behaviours shown by the implementation (owned by C02/C03): '
